@@ -163,29 +163,30 @@ type replayResult struct {
 }
 
 type workerResult struct {
-	Property    string         `json:"property"`
-	Worker      int            `json:"worker"`
-	ExploreRuns int            `json:"explore_runs"`
-	FloorRuns   map[string]int `json:"floor_runs"`
-	SweepRuns   int            `json:"sweep_runs"`
-	FloorsDone  bool           `json:"floors_done"`
-	ExploreDone bool           `json:"explore_done"`
-	Capped      int            `json:"capped"`
-	ForeignRuns int            `json:"foreign_runs"`
-	ForeignEx   []string       `json:"foreign_examples"`
-	Nontrivial  int            `json:"nontrivial"`
-	Hashes      []uint64       `json:"hashes"`
-	Pairs       []uint64       `json:"pairs"`
-	Faults      map[string]int `json:"faults"`
-	Probes      map[string]int `json:"probes"`
-	SimSeconds  float64        `json:"sim_seconds"`
-	Yields      int64          `json:"yields"`
-	Steps       int64          `json:"steps"`
-	Findings    []*finding     `json:"findings"`
-	Samples     []sample       `json:"samples"`
-	WallS       float64        `json:"wall_s"`
-	Replay      *replayResult  `json:"replay"`
-	MemAbort    string         `json:"mem_abort"`
+	Property       string         `json:"property"`
+	Worker         int            `json:"worker"`
+	ExploreRuns    int            `json:"explore_runs"`
+	FloorRuns      map[string]int `json:"floor_runs"`
+	SweepRuns      int            `json:"sweep_runs"`
+	FloorsDone     bool           `json:"floors_done"`
+	ExploreDone    bool           `json:"explore_done"`
+	Capped         int            `json:"capped"`
+	ForeignRuns    int            `json:"foreign_runs"`
+	ForeignEx      []string       `json:"foreign_examples"`
+	Nontrivial     int            `json:"nontrivial"`
+	Hashes         []uint64       `json:"hashes"`
+	Pairs          []uint64       `json:"pairs"`
+	Faults         map[string]int `json:"faults"`
+	Probes         map[string]int `json:"probes"`
+	SimSeconds     float64        `json:"sim_seconds"`
+	Yields         int64          `json:"yields"`
+	Steps          int64          `json:"steps"`
+	Findings       []*finding     `json:"findings"`
+	Samples        []sample       `json:"samples"`
+	WallS          float64        `json:"wall_s"`
+	Replay         *replayResult  `json:"replay"`
+	MemAbort       string         `json:"mem_abort"`
+	Unreproducible map[string]int `json:"unreproducible"`
 }
 
 func runWorker(bin string, spec workerSpec, scratch string, timeout time.Duration) (*workerResult, error) {
@@ -515,7 +516,11 @@ func runProperty(prop, tier string, seed uint64, runs int, mutate, scratch strin
 	var foreignEx []string
 	merged := map[string]*finding{}
 	memAbort := ""
+	unrepro := map[string]int{}
 	for _, r := range results {
+		for k, n := range r.Unreproducible {
+			unrepro[k] += n
+		}
 		if r.MemAbort != "" {
 			memAbort = r.MemAbort
 		}
@@ -696,6 +701,13 @@ func runProperty(prop, tier string, seed uint64, runs int, mutate, scratch strin
 		prop, tier, evaluations, explore, evaluations-explore-sweep, sweep, len(hashes), violations, len(knownHit), wall, buildS)
 	if len(hashes) < 2 {
 		trouble("fewer than 2 distinct non-trivial runs: the check explored nothing")
+	}
+	for k, n := range unrepro {
+		if merged[k] == nil {
+			// seen only in long-lived worker processes, never reproducible in a fresh one: cannot be reported as a
+			// violation (no replay), must not be ignored either
+			trouble("%q was observed in %d run(s) but never reproduced when replayed in a fresh process (state left in the worker process by earlier runs is involved)", k, n)
+		}
 	}
 	if memAbort != "" && exit == 0 {
 		trouble("a worker stopped early to protect the machine (%s) and no violation explains it", memAbort)
